@@ -8,6 +8,17 @@ CHECKS = {
    text='The RFC 3986 URI-reference grammar is compiled into its minimal DFA (183 states, 21 byte classes). Every one of its 182x256 transitions is replayed on the real parser, followed by every distinguishing suffix with up to k arbitrary class symbols in between (complete for implementations with up to 183+k states), plus all class-alphabet strings up to length L over viable prefixes and IPv6/IPvFuture/dec-octet token products, through all parse entry points in both character types; verdict and error offset are compared with the model on every string.',
    ref='DESIGN.md section 3, C01', note=TRUST),
 }
+CHECKS.update({
+ 'C02': dict(cat='model_checking', tech='conformance of parsed component ranges against an independent Appendix-B decomposition on every accepted string of the spec-DFA test sets and bounded-exhaustive enumerations',
+   text='Every accepted string of the spec-automaton test set (transition cover x characterisation set), of the class-alphabet brute force and of the IP/shape products is parsed through the entry points in both character types; each reported component (presence, emptiness, offset, text), the segment list, tail, absolute-path flag, host kind and address bytes are compared with a reference decomposition written from RFC 3986 Appendix B / RFC 4291; the reference recogniser itself is cross-checked against the DFA on every string.',
+   ref='DESIGN.md section 3, C02', note=TRUST),
+ 'C03': dict(cat='model_checking', tech='bounded-exhaustive enumeration of (string, placement, trailing context, split point, failing allocation index) with hardware memory fences (PROT_NONE guard page, read-only view) and a ledger allocator',
+   text='All strings of the lighter C01 sets are parsed at the end of a read-only mapping that abuts an inaccessible page, under each of 22 trailing contexts and at every split point; complete outcomes must coincide; a ledger allocator shows nothing is left allocated after syntax or out-of-memory failure (every allocation index failed, once and from-k-on) and that repeated frees release nothing. A sanitizer (ASan+UBSan) pass repeats a reduced set.',
+   ref='DESIGN.md section 3, C03', note=TRUST + '; reads before `first` are not fenced'),
+ 'C04': dict(cat='model_checking', tech='bounded-exhaustive round trip (parse, recompose, re-parse, compare) over the spec-DFA test sets, with guard-placed exact-size output buffers',
+   text='For every accepted string of the C01 sets and the shape product: recomposed text equals the input with IPv6 literals in eight-group lowercase form, charsRequired and charsWritten are exact, the text re-parses to a uriEqualsUri-equal, component-identical URI, and the owned copy recomposes identically; both character types.',
+   ref='DESIGN.md section 3, C04', note=TRUST),
+})
 NOT_YET = {}
 def main():
     props = [json.loads(l) for l in open(os.path.join(VERIF, 'properties.jsonl'))]
